@@ -38,7 +38,7 @@ def literal(vt, v):
     if vt == "int":
         return "(%d)" % v
     if vt == "float":
-        return "(%r)" % float(v)
+        return "(%r)" % float(v)   # repr keeps the sign of zero
     if vt == "bool":
         return "True" if v else "False"
     return '"%s"' % v
@@ -70,6 +70,9 @@ def make_loop(rng, G, var, tags):
             vals = [G.int_expr_for(rng.randint(0, 9), depth=rng.choice([0, 0, 1, 2])) for _ in range(n)]
         elif vt == "float":
             vals = [rng.choice([G.float_lit(), G.int_lit(), G.expr(rng.choice([1, 2]), "if")]) for _ in range(n)]
+            if rng.random() < 0.15:
+                # zeros of both signs, in both orders
+                vals = rng.choice([["0.0", "-0.0"], ["-0.0", "0"], ["0", "-0.0", "0.0"], ["-0.0"]]) + vals[:1]
         elif vt == "bool":
             vals = [rng.choice(["True", "False"]) for _ in range(n)]
         else:
